@@ -106,3 +106,31 @@ def concrete(value):
     except ImportError:
         return value
     return deep_realize(value)
+
+
+_LRU = []
+
+
+def clear_library_caches(prefix='sdc11073'):
+    """Empty every functools.lru_cache / cache found in the library's modules (module level and class attributes). CrossHair
+    runs all paths of an obligation in ONE process: a memoised result created on one path (possibly holding objects that path
+    mutated) must not leak into the next path or make a counterexample irreproducible in the fresh replay process."""
+    import functools
+    import sys
+    if not _LRU:
+        seen = set()
+        for name, mod in list(sys.modules.items()):
+            if not name.startswith(prefix) or mod is None:
+                continue
+            for val in list(vars(mod).values()):
+                cands = [val]
+                if isinstance(val, type):
+                    cands.extend(getattr(v, '__func__', v) for v in vars(val).values())
+                for c in cands:
+                    if isinstance(c, functools._lru_cache_wrapper) and id(c) not in seen:
+                        seen.add(id(c))
+                        _LRU.append(c)
+        _LRU.append(None)       # scanned (even if nothing was found)
+    for c in _LRU:
+        if c is not None:
+            c.cache_clear()
